@@ -113,3 +113,13 @@ func VerifCleanerRounds(rounds, patience int) (evicted int) {
 	}
 	return evicted
 }
+
+// VerifNewPrometheusTimeout is VerifNewPrometheus with a request timeout of the harness' choice (free-running,
+// real-time scenarios).
+func VerifNewPrometheusTimeout(name, uri string, concurrency int, rt http.RoundTripper, now func() time.Time, timeout time.Duration) *Prometheus {
+	prom := NewPrometheus(name, uri, "", nil, timeout, concurrency, 100, nil)
+	prom.client = http.Client{Transport: rt}
+	prom.rateLimiter = ratelimit.NewUnlimited()
+	prom.cache = newQueryCache(time.Hour, now)
+	return prom
+}
